@@ -439,6 +439,9 @@ func c14E2E(p *fw.ParentCtx) {
 		if j.m.Kind != "builtin" {
 			// one directory per document: hook H2 decodes every file of the directory at start-up
 			doc = applyMutant(doc, j.m)
+			if doc == nil { // the perturbation does not apply at this index (e.g. an id-wrap kind on the last matrix)
+				continue
+			}
 			b, _ := json.Marshal(doc)
 			jobDir = filepath.Join(dir, j.name)
 			_ = os.MkdirAll(jobDir, 0o755)
